@@ -349,7 +349,7 @@ impl TextSelection {
                         x
                     }
                     Cursor::EndAligned(x) => {
-                        if textlen < x.unsigned_abs() {
+                        if x > 0 || textlen < x.unsigned_abs() {
                             return Err(StamError::CursorOutOfBounds(
                                 offset.begin,
                                 "(textselection_by_offset)",
@@ -373,7 +373,7 @@ impl TextSelection {
                         x
                     }
                     Cursor::EndAligned(x) => {
-                        if textlen < x.unsigned_abs() {
+                        if x > 0 || textlen < x.unsigned_abs() {
                             return Err(StamError::CursorOutOfBounds(
                                 offset.end,
                                 "(textselection_by_offset)",
@@ -402,7 +402,8 @@ impl TextSelection {
                 }
             }
             Cursor::EndAligned(cursor) => {
-                if cursor.unsigned_abs() > textlen {
+                //(an end-aligned cursor is zero or negative; a positive one lies beyond the end)
+                if cursor > 0 || cursor.unsigned_abs() > textlen {
                     Err(StamError::CursorOutOfBounds(
                         Cursor::EndAligned(cursor),
                         "TextResource::beginaligned_cursor(): end aligned cursor ends up before the beginning",
